@@ -443,3 +443,45 @@ def search_loop(any_term, cond_of, tag, state_unchanged=None, inv=None, keep=())
     def at_exit(it, env):
         it.assume(z3.Not(any_term(it, env)))
     return LoopSpec(at_start=at_start, at_end=at_end, at_break=at_break, at_exit=at_exit, inv=inv, keep=keep)
+
+
+def havoc_mutable_scalars(it, inst):
+    """object-history quantification: instance attributes holding scalars that some method other than __init__ assigns
+    (self.x = .. / self.x += ..) are replaced by arbitrary values of the same sort, so that a method contract holds for
+    every earlier use of the object, not only for a freshly constructed one"""
+    import ast
+    from pyvc.api import SV, IntS, StrS, BoolS
+    from pyvc.values import ClassV
+    names = set()
+    seen = set()
+    stack = [inst.cls]
+    while stack:
+        c = stack.pop()
+        if not isinstance(c, ClassV) or c.name in seen:
+            continue
+        seen.add(c.name)
+        stack.extend(c.bases)
+        for mname, m in c.methods.items():
+            if mname == '__init__' or not hasattr(m, 'node'):
+                continue
+            for n in ast.walk(m.node):
+                tgt = None
+                if isinstance(n, ast.AugAssign):
+                    tgt = n.target
+                elif isinstance(n, ast.Assign) and len(n.targets) == 1:
+                    tgt = n.targets[0]
+                if isinstance(tgt, ast.Attribute) and isinstance(tgt.value, ast.Name) and tgt.value.id == 'self':
+                    names.add(tgt.attr)
+    out = []
+    for a in sorted(names):
+        v = inst.attrs.get(a)
+        if isinstance(v, bool):
+            inst.attrs[a] = SV(it.fresh('obj_' + a, BoolS))
+        elif isinstance(v, int):
+            inst.attrs[a] = SV(it.fresh('obj_' + a, IntS))
+        elif isinstance(v, str):
+            inst.attrs[a] = SV(it.fresh('obj_' + a, StrS))
+        else:
+            continue
+        out.append(a)
+    return out
